@@ -312,6 +312,40 @@ def rate_oracle(case, lines):
     return None
 
 
+def once_oracle(case, lines):
+    """Only source items, each at most as often as it was emitted (C07S / C09S on the implementation), plus no PANIC /
+    DEADLOCK / HANG."""
+    f = oracle(case, lines, quiet=False)
+    if f:
+        return f
+    if "map" in chain_heads(case.field("pipe")[0]):
+        return None         # values are rewritten on the way: the comparison by value does not apply
+    emitted, delivered = {}, {}
+    for k, ev in enumerate(case.events):
+        ops = [ev[2], ev[3]] if ev[0] == "par" else [ev]
+        for o in ops:
+            if o[0] == "emit" and isinstance(o[2], list) and o[2][0] == "n":
+                emitted[o[2][1]] = emitted.get(o[2][1], 0) + 1
+        got = parse_line(lines.get(k))
+        if not got or "o" not in got:
+            continue
+        for tok in got["o"]:
+            for it in flat_items(tok):
+                delivered[it] = delivered.get(it, 0) + 1
+                if delivered[it] > emitted.get(it, 0):
+                    kind = "duplicate-item" if it in emitted else "invented-item"
+                    return {"kind": kind, "event": k,
+                            "detail": f"{it} delivered {delivered[it]} time(s), emitted {emitted.get(it, 0)} time(s) ({lines.get(k)})"}
+    return None
+
+
+def mover_cases(tier, seed):
+    """the cases of this suite over delay / observe_on (C07S): exhaustive pairs + the random ones"""
+    return [c for c in cases(tier, seed) if chain_heads(c.field("pipe")[0]) and
+            set(chain_heads(c.field("pipe")[0])) <= {"delay", "observeon", "map", "take"}
+            and set(chain_heads(c.field("pipe")[0])) & {"delay", "observeon"}]
+
+
 def cases(tier, seed):
     rng = random.Random(seed + 2002)
     out = exhaustive(tier)
